@@ -551,10 +551,25 @@ func (me *MemberExpression) WriteTo(cw *CodeWriter) {
 		me.Property.WriteTo(cw)
 		cw.WriteRune(']')
 	} else {
+		if il, ok := me.Object.(*IntegerLiteral); ok && il != nil && isDecimalDigits(il.Token.Literal) {
+			// `1.toString()` would read `1.` as a number: keep the literal and the dot apart
+			cw.WriteRune(' ')
+		}
 		cw.AddMapping(me.Token.Start)
 		cw.WriteRune('.')
 		me.Property.WriteTo(cw)
 	}
+}
+
+// isDecimalDigits reports whether s consists of decimal digits only (an integer literal
+// without a radix prefix).
+func isDecimalDigits(s string) bool {
+	for i := 0; i < len(s); i++ {
+		if s[i] < '0' || s[i] > '9' {
+			return false
+		}
+	}
+	return s != ""
 }
 
 func (me *MemberExpression) Precedence() int {
